@@ -102,11 +102,19 @@ class SendUnitDataRequestPacket(RequestPacket):
 
     def __init__(self, sequence: cycle):
         super().__init__()
-        self._sequence = next(sequence) if isinstance(sequence, Generator) else sequence
+        # the connection's counter (or a fixed count): the count is drawn when the request is sent, so
+        # requests that only travel inside a Multiple Service Packet do not use up sequence counts
+        self._sequence = sequence
 
     def _setup_message(self):
         super()._setup_message()
-        self._msg.append(UINT.encode(self._sequence))
+        self._msg.append(b"\x00\x00")  # sequence count, filled in when the request is sent
+
+    def _build_common_packet_format(self, message, addr_data=None) -> bytes:
+        if isinstance(self._sequence, Generator):
+            self._sequence = next(self._sequence)
+        message = UINT.encode(self._sequence) + message[2:]
+        return super()._build_common_packet_format(message, addr_data)
 
     def build_request(
         self, target_cid: bytes, session_id: int, context: bytes, option: int, **kwargs
